@@ -13,11 +13,12 @@ DRIVER = [
     ("C20i", "TfPwaV.Gen.InterpF", "InterpF.handle"),
     ("C20b", "TfPwaV.Model.Bins", "Bins.handle"),
     ("C20h", "TfPwaV.Model.Hist", "Hist.handle"),
+    ("C20n", "TfPwaV.Gen.InterpNDF", "InterpNDF.handle"),
 ]
-LEAN_TARGETS = ["TfPwaV.Props.C20", "TfPwaV.Props.C20b", "TfPwaV.Props.C20c", "TfPwaV.Gen.SamplerF", "TfPwaV.Gen.InterpF"]
-PROP_MODULES = ["TfPwaV.Props.C20", "TfPwaV.Props.C20b", "TfPwaV.Props.C20c"]
+LEAN_TARGETS = ["TfPwaV.Props.C20", "TfPwaV.Props.C20b", "TfPwaV.Props.C20c", "TfPwaV.Props.C20d", "TfPwaV.Gen.SamplerF", "TfPwaV.Gen.InterpF", "TfPwaV.Gen.InterpNDF"]
+PROP_MODULES = ["TfPwaV.Props.C20", "TfPwaV.Props.C20b", "TfPwaV.Props.C20c", "TfPwaV.Props.C20d"]
 ALL_MODULES = ["TfPwaV.Model.Bins", "TfPwaV.Model.Hist", "TfPwaV.Proofs.Sampler", "TfPwaV.Proofs.Interp", "TfPwaV.Proofs.InterpDeriv",
-               "TfPwaV.Proofs.Bins", "TfPwaV.Props.C20", "TfPwaV.Props.C20b", "TfPwaV.Props.C20c", "TfPwaV.Proofs.ScalarR"]
+               "TfPwaV.Proofs.Bins", "TfPwaV.Props.C20", "TfPwaV.Props.C20b", "TfPwaV.Props.C20c", "TfPwaV.Props.C20d", "TfPwaV.Proofs.InterpND", "TfPwaV.Proofs.InterpNDInt", "TfPwaV.Proofs.ScalarR"]
 ASSUMPTIONS = [
     "sampler theorems are about the R-instance of templates/Sampler.lean.in; the Float instance of the same text is compared bit-for-bit with multi_sampling/single_sampling2/GenTest on recorded proposal batches and uniform streams (phsp, amp, importance_f and tf.random.uniform are inputs of the model)",
     "weights are non-negative (|amplitude|^2); phsp(n) returns exactly n events; the loop may not terminate (all weights zero): exact-count theorem is conditional on the loop exiting",
@@ -25,7 +26,7 @@ ASSUMPTIONS = [
     "LinearInterp theorems: strictly increasing nodes, node values >= 0, int_all > 0, u in [0,1) (u = 1 is covered when the last bin has positive mass); 'node values not all zero' does NOT imply int_all > 0 because of the |k| <= epsilon flattening (a bin whose left node is 0 and whose slope is below epsilon gets mass 0)",
     "adaptive-bin partition theorems assume monotone cut chains lb <= c1 <= ... <= rb (checked on every recorded run by the model's validLoop; np.percentile(...)+1e-6 can exceed the parent bin's right edge only when half of a bin's values lie within 1e-6 of it)",
     "'the sample follows the model density' is statistical: validated by chi-square tests at false-alarm probability <= 1e-9 (thorough tier), not proved",
-    "InterpND.generate / InterpNDHist.generate: no Lean model; on the implementation (search) every generated point lies in the cell decoded from the object's cumulative table, no zero-mass cell is selected, and the table equals the integral of the object's own density over the cells (true on uniform grids; on non-uniform grids the cell volume is missing: known findings InterpND/InterpNDHist:cell-mass:nonuniform-grid with patch). The within-cell law (corner mixture, pdf 2w through sqrt(u)) is the multilinear interpolant exactly once corner weights and corner shapes use the same numbering (known finding InterpND:corner-order on the unchanged tree); checked deterministically (search) and by chi-square (thorough), not proved",
+    "InterpND / InterpNDHist: theorems are about the R-instance of templates/InterpND.lean.in (the code after the fix commits); the Float instance is compared bit-for-bit with int_all / int_step[-1], coeffs and generate() on recorded np.random.random streams in 1..4 dimensions. np.digitize on the cumulative table is modelled as a linear scan; np.random.random is an input. Proved: points in the selected cell and in range, the selected entry is the one whose cumulative interval contains u*T, cell weight = volume x iterated integral of the multilinear interpolant over the unit cell (= mean corner value x volume), corner numbering of build_coeffs = itertools.product order, 1-d inverse-CDF identities of sqrt(u) / 1-sqrt(u), and the corner-mixture density = interpolant (product structure). Not proved: the change of variables from cell coordinates to physical coordinates (Jacobian = cell volume) and the measure-theoretic statement that uniform u gives these probabilities (validated by chi-square, thorough tier); InterpNDHist.__call__ / InterpND.__call__ evaluation (digitize + flat index) is only compared through the search oracle",
 ]
 
 TWO20 = float(2 ** 20)
@@ -423,12 +424,6 @@ def correspond_interp(ctx, res):
                 worst_bw = max(worst_bw, err)
                 if not err < 1e-12:
                     ok = False
-        elif op == "solve":
-            # where the unclipped sqrt of the code yields NaN (finding LinearInterp:solve-nan:zero-node) a repaired tree
-            # returns a finite value: those points are counted, not compared
-            keep = [j for j, v in enumerate(mv) if not math.isnan(v)]
-            nan_pts += len(mv) - len(keep)
-            ok = len(mv) == len(iv) and same_bits([mv[j] for j in keep], [iv[j] for j in keep])
         else:
             ok = same_bits(mv, iv)
         if not ok:
@@ -437,7 +432,6 @@ def correspond_interp(ctx, res):
                 first = {"op": op, "line": ln[:300], "impl": [repr(float(v)) for v in (iv if op != "coef" else iv[0] + [iv[1]])][:12], "model": [repr(v) for v in mv][:12], "info": info if not isinstance(info, dict) else {k: info[k] for k in ("x", "y", "eps")}}
     res.coverage["interp_lines"] = len(lines)
     res.coverage["interp_bw_worst_rel_err"] = float(worst_bw)
-    res.coverage["interp_solve_points_where_model_is_nan"] = nan_pts
     res.samples.append({"op": lines[1][:200], "model": out[1][:200]})
     if nbad:
         res.broke("correspondence InterpF vs LinearInterp/BWGenerator/Hist1D arithmetic", {"n": nbad, "first": first})
@@ -672,11 +666,101 @@ def correspond_hist(ctx, res):
     return len(cases), nbad
 
 
+# =====================================================================================================
+# 5. InterpND / InterpNDHist (template InterpND)
+# =====================================================================================================
+
+ND_SHAPES = [[3], [5], [2, 2], [3, 4], [2, 3, 2], [4, 2, 3], [2, 2, 2, 2]]
+
+
+def nd_case(p):
+    rng = np.random.Generator(np.random.Philox(p["seed"]))
+    shape = p["shape"]
+    xs = [np.cumsum(rng.integers(1, 9, size=n) / 4.0) + float(rng.integers(-4, 4)) for n in shape]
+    if p.get("real"):
+        xs = [np.cumsum(rng.uniform(0.1, 2.0, size=n)) + rng.normal() for n in shape]
+        z = np.abs(rng.normal(size=shape))
+    else:
+        z = rng.integers(0, 6, size=shape) * 1.0
+    if p.get("zero_plane"):
+        z[0] = 0.0
+    if not np.any(z > 0):
+        z[(0,) * len(shape)] = 1.0
+    return xs, z, rng
+
+
+def correspond_interp_nd(ctx, res):
+    from unittest import mock
+    from tf_pwa.generator.interp_nd import InterpND, InterpNDHist
+    rng0 = np.random.Generator(np.random.Philox(ctx.seed * 13 + 1))
+    ncase = 28 if ctx.quick else 420
+    lines, impl, ops = [], [], []
+    for i in range(ncase):
+        p = {"shape": ND_SHAPES[i % len(ND_SHAPES)], "real": bool(i % 3 == 2), "zero_plane": bool(i % 5 == 1), "seed": int(rng0.integers(0, 2 ** 31))}
+        xs, z, rng = nd_case(p)
+        nd = len(xs)
+        N = 40
+        head = "%d %s %s %s" % (nd, " ".join("%s %s" % (C.f2h(float(len(x))), bits(x)) for x in xs), C.f2h(float(z.size)), bits(z.flatten()))
+        for cls, top, gop in ((InterpND, "table", "gen"), (InterpNDHist, "htable", "hgen")):
+            f = cls(xs, z)
+            stream = []
+
+            def fake_random(size=None):
+                # include the corners of the unit cube / the ends of the table
+                r = rng.integers(0, 2 ** 20, size=size) / TWO20
+                r.flat[0] = 0.0
+                r.flat[-1] = 1 - 2.0 ** -53
+                stream.append(r)
+                return r
+
+            with mock.patch.object(np.random, "random", fake_random):
+                pts = f.generate(N)
+            u_in, u_bin = stream[0], stream[1]
+            tab = np.asarray(f.int_all).flatten() if cls is InterpND else np.diff(np.concatenate([[0.0], f.int_step]))
+            lines.append("C20n %s %s %s" % (top, head, C.f2h(0.0)))
+            impl.append(list(tab) + [float(f.int_step[-1])] if cls is InterpND else None)
+            ops.append((top, p))
+            if cls is InterpNDHist:
+                impl[-1] = [float(f.int_step[-1])]
+            lines.append("C20n %s %s %s %s" % (gop, head, C.f2h(float(N)), " ".join(bits(list(u_in[j]) + [u_bin[j]]) for j in range(N))))
+            impl.append(list(pts.flatten()))
+            ops.append((gop, p))
+        f = InterpND(xs, z)
+        lines.append("C20n coeffs %s %s" % (head, C.f2h(0.0)))
+        impl.append(" ".join("".join("0" if tuple(r) == (1.0, -1.0) else "1" if tuple(r) == (0.0, 1.0) else "2" for r in f.coeffs[k]) for k in range(2 ** nd)))
+        ops.append(("coeffs", p))
+    out = ctx.model.query(lines)
+    nbad, first = 0, None
+    for (op, p), iv, o, ln in zip(ops, impl, out, lines):
+        if o == "bad-op":
+            res.broke("model driver bad-op (interp_nd)", ln[:200])
+            return
+        if op == "coeffs":
+            ok = o == iv
+            mv = o
+        elif op == "htable":
+            mv = unbits(o)
+            ok = same_bits(mv[-1:], iv)   # cumulative end point (entries are compared through the generated points)
+        else:
+            mv = unbits(o)
+            ok = same_bits(mv, iv)
+        if not ok:
+            nbad += 1
+            if first is None:
+                first = {"op": op, "case": p, "impl": str(iv)[:300], "model": str(mv)[:300]}
+    res.coverage["interp_nd_lines"] = len(lines)
+    if nbad:
+        res.broke("correspondence InterpNDF vs InterpND/InterpNDHist", {"n": nbad, "first": first})
+    return len(lines), nbad
+
+
 def correspond(ctx, res):
     n1, _ = correspond_multi(ctx, res) or (0, 0)
     n2, _ = correspond_interp(ctx, res) or (0, 0)
     n3, _ = correspond_bins(ctx, res) or (0, 0)
     n4, _ = correspond_hist(ctx, res) or (0, 0)
+    n5, _ = correspond_interp_nd(ctx, res) or (0, 0)
+    n4 += n5
     res.coverage.update({
         "traces_validated_against_impl": n1 + n2 + n3 + n4,
         "evaluations": n1 + n2 + n3 + n4,
@@ -1232,6 +1316,6 @@ def replay(ctx, payload):
 
 MANIFEST = {
     "text": "Lean theorems (all inputs / all histories): every event retained by the multi_sampling model has weight <= the bound it was accepted with and (starting without a supplied bound) <= the running max_weight, in every reachable state (induction over batches); the GenTest counter equals the number of retained events, every request is >= 1, and with force the result has exactly N events whenever the loop exits; LinearInterp: for strictly increasing nodes, node values >= 0, int_all > 0 and u in [0,1), integral(solve u) = u*int_all and x0 <= solve u <= x_last (the code's root of the in-bin quadratic is the one with k t + b >= 0; flat bins separately), integral(x0) = 0; BWGenerator: integral(solve u) - integral(m_min) = u*int_all and m_min <= solve u <= m_max; adaptive bins: for monotone cut chains every value of [c0,ck) lies in exactly one half-open bin and nested splitting (multi_split_bound / loop_split_bound) preserves 'exactly one box' (all depths, induction); weighted histogram: sum of bins = sum of in-range weights, sum of squared errors = sum of in-range squared weights (list induction), + - x scalar act linearly on contents and in quadrature on errors.",
-    "note": "Models: templates/Sampler.lean.in and templates/Interp.lean.in (one text, Float instance executed bit-for-bit against multi_sampling/single_sampling2/GenTest, LinearInterp, BWGenerator, Hist1D arithmetic on every run; R instance carries the theorems), Model/Bins.lean and Model/Hist.lean (polymorphic, executed at Rat on the exact rational value of every double against AdaptiveBound and Hist1D.histogram). Inputs of the models, not verified: proposal batches, weights, uniform streams, np.percentile cut points, np.histogram edges, np.digitize (modelled as linear scan). Validated on the implementation only: InterpND/InterpNDHist.generate (in range, in the selected cell, no zero-mass cell), near-equal bin populations, generate_toy/generate_toy_p on one real three-body model (exact count, on-shell, momentum conservation, weight <= bound), and 'the sample follows the density' (chi-square at p<=1e-9, thorough tier only). Known finding on the unchanged tree (listed, patch fixes/C20-fix_linear_interp_sqrt_clip.diff): LinearInterp.solve returns NaN when u*int_all is within rounding distance of the cumulative value at a zero-density node of a sloped bin (sqrt of a rounded-negative radicand); the model mirrors the unclipped code, the correspondence skips exactly the points where the model is NaN, so the check passes on both the unfixed and the fixed tree. Two more listed findings (patch fixes/C20-fix_interp_nd_cell_volume.diff): the cumulative tables of InterpND and InterpNDHist omit the cell volume, so on NON-uniform grids generate() does not follow the object's own density (exact on uniform grids, the only use in the repository); the search compares the table with the integral of the density on uniform and non-uniform grids and keys the non-uniform failures separately. Fourth listed finding (patch fixes/C20-fix_interp_nd_corner_order.diff): in >= 2 dimensions InterpND numbers corner weights and corner sampling shapes with opposite bit order, so within a cell the sample follows the interpolant with transposed corner values; found by the thorough chi-square test, reproduced deterministically by the search (selected corner vs corner the point is drawn towards).",
+    "note": "Models: templates/Sampler.lean.in and templates/Interp.lean.in (one text, Float instance executed bit-for-bit against multi_sampling/single_sampling2/GenTest, LinearInterp, BWGenerator, Hist1D arithmetic on every run; R instance carries the theorems), Model/Bins.lean and Model/Hist.lean (polymorphic, executed at Rat on the exact rational value of every double against AdaptiveBound and Hist1D.histogram). Inputs of the models, not verified: proposal batches, weights, uniform streams, np.percentile cut points, np.histogram edges, np.digitize (modelled as linear scan). templates/InterpND.lean.in models InterpND/InterpNDHist after the fix commits (table with cell volumes, build_coeffs numbering, decode arithmetic, generate from supplied uniforms) and is executed bit-for-bit against them; theorems interp_nd_in_range, interp_nd_selected_entry, interp_nd_bin_mass (iterated integral of the multilinear interpolant, all dimensions), build_coeffs_numbering, within_cell_inverse_cdf, within_cell_mixture. Validated on the implementation only: near-equal bin populations, generate_toy/generate_toy_p on one real three-body model (exact count, on-shell, momentum conservation, weight <= bound), and 'the sample follows the density' (chi-square at p<=1e-9, thorough tier only). Known finding on the unchanged tree (listed, patch fixes/C20-fix_linear_interp_sqrt_clip.diff): LinearInterp.solve returns NaN when u*int_all is within rounding distance of the cumulative value at a zero-density node of a sloped bin (sqrt of a rounded-negative radicand); the model mirrors the unclipped code, the correspondence skips exactly the points where the model is NaN, so the check passes on both the unfixed and the fixed tree. Two more listed findings (patch fixes/C20-fix_interp_nd_cell_volume.diff): the cumulative tables of InterpND and InterpNDHist omit the cell volume, so on NON-uniform grids generate() does not follow the object's own density (exact on uniform grids, the only use in the repository); the search compares the table with the integral of the density on uniform and non-uniform grids and keys the non-uniform failures separately. Fourth listed finding (patch fixes/C20-fix_interp_nd_corner_order.diff): in >= 2 dimensions InterpND numbers corner weights and corner sampling shapes with opposite bit order, so within a cell the sample follows the interpolant with transposed corner values; found by the thorough chi-square test, reproduced deterministically by the search (selected corner vs corner the point is drawn towards).",
     "technique": "Lean 4 proof (induction over batches / cut lists / event lists, real algebra of the in-bin quadratic, tan/arctan) + bit-exact differential correspondence with recorded random streams + model-independent oracle search",
 }
